@@ -33,6 +33,7 @@ func init() {
 			{ID: "R08.7", Template: "T-OWN", Text: "every exported-function lookup yields a freshly allocated call engine (value stack and execution context are per api.Function)", Min: 2},
 			{ID: "R08.8", Template: "T-OWN", Text: "the reflection marshalling writes only the caller's stack or memory allocated in the same call", Min: 1},
 			{ID: "R08.11", Template: "T-CONSULT", Text: "amd64: no argument register is overwritten after the arguments of a call were placed (genuine defect found and fixed: r11 in indirect tail calls)", Min: 1},
+			{ID: "R08.12", Template: "T-CONSULT", Text: "a Go-callable function object is not built from a host module's (missing) entry preamble (known finding: re-exported host functions panic on the compiler)", Min: 1},
 			{ID: "R08.10", Template: "T-MUSTPASS", Text: "results written by a host function are never masked by the parameter types", Min: 4},
 			{ID: "R08.9", Template: "T-MUSTPASS", Text: "the compiler's Go side zero-extends 32-bit slots before host functions, listeners and Call/CallWithStack callers see them (genuine defect found and fixed)", Min: 7},
 		},
@@ -489,6 +490,7 @@ func runC08(c *core.Ctx) {
 	checkEmitterWidths(c)
 	checkSlotNormalisation(c, "R08.9", "R08.10")
 	checkArgRegsNotClobbered(c)
+	checkEntryPreambleForHostModules(c)
 	checkFreshCallEngine(c)
 	checkMarshalScratch(c)
 
@@ -1259,5 +1261,65 @@ func checkArgRegsNotClobbered(c *core.Ctx) {
 	c.Count("fixed_register_moves_after_arg_placement", n)
 	if n == 0 {
 		c.Undecided("R08.11", "fixed-register moves after argument placement", 0, "none found")
+	}
+}
+
+// ---- R08.12: host modules have no entry preambles ----
+
+// checkEntryPreambleForHostModules: compileHostModule builds no entry preambles, so creating a Go-callable function object must
+// not index a compiled module's entryPreambles unless that module is known not to be a host module. A guest may re-export an
+// imported host function, and a start function may be one: both reach NewFunction with the host module's engine.
+func checkEntryPreambleForHostModules(c *core.Ctx) {
+	p := c.Pkg(wzv)
+	if p == nil {
+		return
+	}
+	info := p.TypesInfo
+	n := 0
+	core.AllFuncDecls(p, func(fd *ast.FuncDecl) {
+		ast.Inspect(fd.Body, func(x ast.Node) bool {
+			ix, ok := x.(*ast.IndexExpr)
+			if !ok {
+				return true
+			}
+			se, ok := ast.Unparen(ix.X).(*ast.SelectorExpr)
+			if !ok || se.Sel.Name != "entryPreambles" {
+				return true
+			}
+			if _, isIdx := ix.Index.(*ast.BasicLit); isIdx {
+				return true
+			}
+			// only readers (the compile functions assign the elements)
+			n++
+			guard := false
+			ast.Inspect(fd.Body, func(y ast.Node) bool {
+				if s2, ok := y.(*ast.SelectorExpr); ok && s2.Sel.Name == "IsHostModule" && s2.Pos() < ix.Pos() {
+					guard = true
+				}
+				return true
+			})
+			// does the function hand over to the engine of another module (an imported function's)?
+			delegates := false
+			ast.Inspect(fd.Body, func(y ast.Node) bool {
+				if call, ok := y.(*ast.CallExpr); ok {
+					if f := core.Callee(info, call); f != nil && f.Name() == fd.Name.Name && call.Pos() < ix.Pos() {
+						delegates = true
+					}
+				}
+				return true
+			})
+			if !delegates {
+				c.Discharge("R08.12", "entry preamble lookup in "+fd.Name.Name+" cannot see a host module", ix.Pos(), "the function does not hand over to another module's engine")
+				return true
+			}
+			c.Check(guard, "R08.12", "entry preamble lookup in "+fd.Name.Name+" is guarded for host modules", ix.Pos(),
+				"IsHostModule is consulted before the lookup",
+				fd.Name.Name+" hands an imported function over to the defining module's engine and indexes that module's entryPreambles, which is empty for a host module (compileHostModule builds none): ExportedFunction of a guest's re-export of a host function, and the instantiation of a module whose start function is an imported host function, panic with 'index out of range [0] with length 0' on the compiler while the interpreter runs them")
+			return true
+		})
+	})
+	c.Count("entry_preamble_lookups", n)
+	if n == 0 {
+		c.Undecided("R08.12", "entry preamble lookups", 0, "none found")
 	}
 }
